@@ -141,7 +141,7 @@ def CompileNeverPanics : Prop := ∀ p : Prog, verdictY p ≠ .crash
 
 /-- **ill-typed programs are rejected**: every program of the fragment (all expressions and statements,
     any nesting) that the Go rules reject and whose check sites are outside the classes that are still open
-    (F12-4, F12-5, F12-6, F12-11 channel directions, F12-15, F12-17, F12-18, F12-19) is rejected by yaegi's checks with an error -/
+    (F12-4 assignments and returns, F12-5, F12-6, F12-19, F12-25 nil-only operands) is rejected by yaegi's checks with an error -/
 theorem rejects_illtyped_partial (p : Prog) (hd : DomP p = true) (h : verdictG p = .err) : verdictY p = .err := by
   rw [typing_agree p hd]; exact h
 
@@ -165,9 +165,15 @@ private def tN0 : Ty := .s (.named ⟨0, .int, [0]⟩)
 
 /-- the facts the extractor emits for the tree before the third round of repairs (ab398ff): every fact introduced or
     flipped by 5877dba … f150e30 and 6f2f5cf / e6c1f4a at its old value. The "before" half of the regression examples. -/
-def factsBeforeRound3 : TcFacts :=
+def factsBeforeRound5 : TcFacts :=
   { Expected.C12.tcFacts with
-    ops := { Expected.C12.opFacts with convNilBoolGuard := false, assignNilGuard := false, constIfaceChecked := false },
+    ops := { Expected.C12.opFacts with cmpChanExempt := .identical, shiftBoolGuard := false, shiftNegChecked := false },
+    opTypeFromOperand := false, shiftUntypedCtx := false, indexZeroLenChecked := false, arrayLitSliceUnbounded := false,
+    nilOperandsReported := false, convTypedNumericOk := false, callValueConvChecked := false }
+def verdictBefore5 (p : Prog) : Verdict := (checkProg (rulesY factsBeforeRound5) p).verdict
+def factsBeforeRound3 : TcFacts :=
+  { factsBeforeRound5 with
+    ops := { factsBeforeRound5.ops with convNilBoolGuard := false, assignNilGuard := false, constIfaceChecked := false },
     landLorChecked := false, sendValueChecked := false, sendDirChecked := false, retConstChecked := false,
     cmpConvErrKept := false, zeroConst := .untypedSign, opAssignZeroChecked := false, quoFloatZeroOk := false,
     indexNegChecked := false, indexOperandChecked := false, recvDecl := .legacy, recvAssign := .legacy,
@@ -190,11 +196,11 @@ theorem const_cond_if_panic_witness : verdictY progConstCondIf = .err ∧ verdic
 /-- the historical behaviour: with the fact `condBoolGuarded := false` the same program is a Go panic -/
 theorem const_cond_unguarded_panics :
     (checkProg (rulesY { Expected.C12.tcFacts with condBoolGuarded := false }) progConstCond).verdict = .crash := by decide
-/-- the condition test is exact for every operand but `nil` (hypothesis on go/constant operands: see `cond_agree`) -/
-theorem cond_correct (x : Opnd) (hn : x.ty ≠ .nil)
+/-- the condition test is exact for EVERY operand, `nil` included since 52cb9ff (hypothesis on go/constant operands: see `cond_agree`) -/
+theorem cond_correct (x : Opnd)
     (hcb : ∀ c, x.rv = .const c → Spec.kindIsG (· == .bool) x.ty = false) :
     condY Generated.C12.tcFacts x = Spec.condG x := by
-  rw [tcfacts_tie]; exact cond_agree x hn hcb
+  rw [tcfacts_tie]; exact cond_agree x hcb
 
 /-- `var x I3; v, ok := x.(S0)` with `I3 = interface{ M0(); m8() }` and `S0` having only `M0`: an impossible
     assertion whose missing method is not exported. Rejected by both sides, inside the domain; with the skip test
@@ -323,25 +329,17 @@ def progIface : Prog := main [.declz (.iface 0 []), .decl tInt (.var 0)]
 theorem interface_to_concrete_witness : verdictY progIface = .ok ∧ verdictG progIface = .err ∧ DomP progIface = false := by
   unfold verdictY DomP; rw [tcfacts_tie]; decide
 
-/-- F12-17: `v := nil` — a Go panic ("nil reflect type") escapes the compiler; so do `if nil {}`, `int(nil)`, `nil.(int)` -/
-def progDefineNil : Prog := main [.define .nil]
-def progCondNil : Prog := main [.ifS .nil .nil .nil]
-def progConvNil : Prog := main [.define (.conv tInt .nil)]
-theorem nil_operand_witness :
-    verdictY progDefineNil = .crash ∧ verdictG progDefineNil = .err ∧ DomP progDefineNil = false ∧
-    verdictY progCondNil = .crash ∧ verdictG progCondNil = .err ∧
-    verdictY progConvNil = .crash ∧ verdictG progConvNil = .err := by
+/-- F12-25 (the part of F12-17 that 52cb9ff does not cover): `x := nil == nil` — no operand gives nil a type and
+    `convertUntyped` asks the nil reflect.Type for its kind: a Go panic escapes the compiler; so do `<-nil`, `nil[0]` -/
+def progNilEq : Prog := main [.define (.cmp .eq .nil .nil)]
+def progRecvNil : Prog := main [.define (.recv .nil)]
+def progIndexNil : Prog := main [.define (.index .nil (.lit .int 0 false))]
+theorem nil_only_operand_witness :
+    verdictY progNilEq = .crash ∧ verdictG progNilEq = .err ∧ DomP progNilEq = false ∧
+    verdictY progRecvNil = .crash ∧ verdictG progRecvNil = .err ∧ DomP progRecvNil = false ∧
+    verdictY progIndexNil = .crash ∧ verdictG progIndexNil = .err ∧ DomP progIndexNil = false := by
   unfold verdictY DomP; rw [tcfacts_tie]; decide
-theorem compile_never_panics_witness : ¬ CompileNeverPanics := fun h => h progDefineNil nil_operand_witness.1
-
-/-- F12-18: `var a int; x := a << int(-1)` (a negative typed constant shift count) and `var z [0]int; x := z[0]`
-    (a constant index into an array of length 0) are accepted -/
-def progNegShift : Prog := main [.declz tInt, .define (.shift .shl (.var 0) (.conv tInt (.lit .int (-1) false)))]
-def progZeroLenIndex : Prog := main [.declz (.array 0 (.basic .int)), .define (.index (.var 0) (.lit .int 0 false))]
-theorem constant_value_unexamined_witness :
-    verdictY progNegShift = .ok ∧ verdictG progNegShift = .err ∧ DomP progNegShift = false ∧
-    verdictY progZeroLenIndex = .ok ∧ verdictG progZeroLenIndex = .err ∧ DomP progZeroLenIndex = false := by
-  unfold verdictY DomP; rw [tcfacts_tie]; decide
+theorem compile_never_panics_witness : ¬ CompileNeverPanics := fun h => h progNilEq nil_only_operand_witness.1
 
 /-- F12-19: `type N4 bool; var a int; var c N4; var z bool = (a < a) && c` — the comparison has type bool, so has the
     conjunction (Go: N4, not assignable to bool) -/
@@ -352,26 +350,77 @@ theorem comparison_operand_of_logical_witness :
     verdictY progCmpLogical = .ok ∧ verdictG progCmpLogical = .err ∧ DomP progCmpLogical = false := by
   unfold verdictY DomP; rw [tcfacts_tie]; decide
 
-/-- F12-21: `func f() {}; v := int(f())` — cfg.go does not call `callValue` for a conversion: a Go panic escapes the compiler -/
-def progConvNoValue : Prog := ⟨[⟨⟨[], []⟩, .nil⟩], body [.define (.conv tInt (.call 0 .nil))]⟩
-theorem call_value_in_conversion_witness :
-    verdictY progConvNoValue = .crash ∧ verdictG progConvNoValue = .err ∧ DomP progConvNoValue = false := by
-  unfold verdictY DomP; rw [tcfacts_tie]; decide
-
-/-- F12-23: `x := complex64(int(0))` is a constant conversion Go allows; `convertibleTo` (int → complex64) rejects it -/
-def progComplexOfTyped : Prog := main [.define (.conv (.s (.basic .complex64)) (.conv tInt (.lit .int 0 false)))]
-theorem typed_constant_to_complex_witness :
-    verdictY progComplexOfTyped = .err ∧ DomP progComplexOfTyped = false := by
-  unfold verdictY DomP; rw [tcfacts_tie]; decide
-
-/-- F12-11 (open part): `var a chan int; var b <-chan int; x := a == b` is valid Go and is rejected -/
-def progChanCmp : Prog := main [.declz (.chan .both (.basic .int)), .declz (.chan .recv (.basic .int)), .define (.cmp .eq (.var 0) (.var 1))]
-theorem accepts_welltyped_witness : verdictG progChanCmp = .ok ∧ verdictY progChanCmp = .err ∧ DomP progChanCmp = false := by
+/-- F12-19, a false rejection: `((a < a) && c) && c` with c of a defined boolean type is valid Go; the inner conjunction
+    has type bool for yaegi and is not itself a comparison, so the outer one is "mismatched types bool and N4" -/
+def progLogicalNested : Prog := main [.declz tInt, .declz tN4,
+  .define (.bin .land (.bin .land (.cmp .lt (.var 0) (.var 0)) (.var 1)) (.var 1))]
+theorem accepts_welltyped_witness :
+    verdictG progLogicalNested = .ok ∧ verdictY progLogicalNested = .err ∧ DomP progLogicalNested = false := by
   unfold verdictY DomP; rw [tcfacts_tie]; decide
 theorem accepts_welltyped_full_false : ¬ AcceptsWelltyped := fun h => by
-  have := h progChanCmp accepts_welltyped_witness.1
+  have := h progLogicalNested accepts_welltyped_witness.1
   rw [accepts_welltyped_witness.2.1] at this
   cases this
+
+/-! #### regression examples of the fifth round: formerly failing replays agree with the specification, inside the domain -/
+
+/-- F12-17 (52cb9ff, 1122c63): `v := nil`, `if nil {}`, `x := int(nil)`, `x := nil.(int)`, `var a int; x := true << a` — errors; Go panics before -/
+def progDefineNil : Prog := main [.define .nil]
+def progCondNil : Prog := main [.ifS .nil .nil .nil]
+def progConvNil : Prog := main [.define (.conv tInt .nil)]
+def progAssertNil : Prog := main [.define (.assert tInt .nil)]
+def progBoolShift : Prog := main [.declz tInt, .define (.shift .shl (.lit .bool 1 false) (.var 0))]
+theorem nil_operand_fixed :
+    verdictY progDefineNil = .err ∧ verdictG progDefineNil = .err ∧ DomP progDefineNil = true ∧
+    verdictY progCondNil = .err ∧ verdictG progCondNil = .err ∧ DomP progCondNil = true ∧
+    verdictY progConvNil = .err ∧ verdictG progConvNil = .err ∧ DomP progConvNil = true ∧
+    verdictY progAssertNil = .err ∧ verdictG progAssertNil = .err ∧ DomP progAssertNil = true ∧
+    verdictY progBoolShift = .err ∧ verdictG progBoolShift = .err ∧ DomP progBoolShift = true ∧
+    verdictBefore5 progDefineNil = .crash ∧ verdictBefore5 progCondNil = .crash ∧ verdictBefore5 progConvNil = .crash ∧
+    verdictBefore5 progAssertNil = .crash ∧ verdictBefore5 progBoolShift = .crash := by
+  unfold verdictY DomP; rw [tcfacts_tie]; decide
+
+/-- F12-18 (5556d48): `var a int; x := a << int(-1)` and `var z [0]int; x := z[0]` — rejected; accepted before -/
+def progNegShift : Prog := main [.declz tInt, .define (.shift .shl (.var 0) (.conv tInt (.lit .int (-1) false)))]
+def progZeroLenIndex : Prog := main [.declz (.array 0 (.basic .int)), .define (.index (.var 0) (.lit .int 0 false))]
+theorem constant_value_examined_fixed :
+    verdictY progNegShift = .err ∧ verdictG progNegShift = .err ∧ DomP progNegShift = true ∧
+    verdictY progZeroLenIndex = .err ∧ verdictG progZeroLenIndex = .err ∧ DomP progZeroLenIndex = true ∧
+    verdictBefore5 progNegShift = .ok ∧ verdictBefore5 progZeroLenIndex = .ok := by
+  unfold verdictY DomP; rw [tcfacts_tie]; decide
+
+/-- F12-21 (29b7aa6): `func f() {}; v := int(f())` — an error; a Go panic before -/
+def progConvNoValue : Prog := ⟨[⟨⟨[], []⟩, .nil⟩], body [.define (.conv tInt (.call 0 .nil))]⟩
+theorem call_value_in_conversion_fixed :
+    verdictY progConvNoValue = .err ∧ verdictG progConvNoValue = .err ∧ DomP progConvNoValue = true ∧
+    verdictBefore5 progConvNoValue = .crash := by
+  unfold verdictY DomP; rw [tcfacts_tie]; decide
+
+/-- F12-23 (8b84ab3): `x := complex64(int(0))`, a constant conversion — accepted; rejected before -/
+def progComplexOfTyped : Prog := main [.define (.conv (.s (.basic .complex64)) (.conv tInt (.lit .int 0 false)))]
+theorem typed_constant_to_complex_fixed :
+    verdictY progComplexOfTyped = .ok ∧ verdictG progComplexOfTyped = .ok ∧ DomP progComplexOfTyped = true ∧
+    verdictBefore5 progComplexOfTyped = .err := by
+  unfold verdictY DomP; rw [tcfacts_tie]; decide
+
+/-- F12-11 (6110e8a, 61b9210): `var a chan int; var b <-chan int; x := a == b` is valid Go — accepted, rejected before;
+    `var a chan int; var b chan N0; x := a == b` (same reflect type, different element types) stays rejected: the
+    regression of 6110e8a alone (`.unnamedPair`) accepted it -/
+def progChanCmp : Prog := main [.declz (.chan .both (.basic .int)), .declz (.chan .recv (.basic .int)), .define (.cmp .eq (.var 0) (.var 1))]
+def progChanCmpElem : Prog := main [.declz (.chan .both (.basic .int)), .declz (.chan .both (.named ⟨0, .int, [0]⟩)), .define (.cmp .eq (.var 0) (.var 1))]
+theorem channel_direction_comparison_fixed :
+    verdictY progChanCmp = .ok ∧ verdictG progChanCmp = .ok ∧ DomP progChanCmp = true ∧
+    verdictBefore5 progChanCmp = .err ∧
+    verdictY progChanCmpElem = .err ∧ verdictG progChanCmpElem = .err ∧ DomP progChanCmpElem = true ∧
+    (checkProg (rulesY { Expected.C12.tcFacts with ops := { Expected.C12.opFacts with cmpChanExempt := .unnamedPair } }) progChanCmpElem).verdict = .ok := by
+  unfold verdictY DomP; rw [tcfacts_tie]; decide
+
+/-- F12-4 (2988c87, the declaration part): `var a int; var b bool = a * a` — rejected; accepted before. The assignment
+    and return forms stay open (`propagation_witness`) -/
+def progDeclPropagated : Prog := main [.declz tInt, .decl (.s (.basic .bool)) (.bin .mul (.var 0) (.var 0))]
+theorem declaration_propagation_fixed :
+    verdictY progDeclPropagated = .err ∧ verdictG progDeclPropagated = .err ∧ verdictBefore5 progDeclPropagated = .ok := by
+  unfold verdictY; rw [tcfacts_tie]; decide
 
 /-! #### non-vacuity: non-trivial programs inside the domain -/
 
@@ -414,9 +463,9 @@ theorem cond_typed_correct (x : Opnd) (hx : x.rv = .none) (hxt : x.ty.isUntyped 
   rw [tcfacts_tie]; exact cond_typed_agree x hx hxt
 /-- type assertions `x.(T)` / `v, ok := x.(T)`: for every operand but `nil` and every asserted type of the
     fragment, typeAssertionExpr accepts exactly the assertions the specification allows -/
-theorem assert_correct (typ : Ty) (x : Opnd) (hn : x.ty ≠ .nil) :
+theorem assert_correct (typ : Ty) (x : Opnd) :
     assertY Generated.C12.tcFacts typ x = Spec.assertG typ x := by
-  rw [tcfacts_tie]; exact assert_agree typ x hn
+  rw [tcfacts_tie]; exact assert_agree typ x
 theorem recv_typed_correct (x : Opnd) (hxt : x.ty.isUntyped = false) : recvY Generated.C12.tcFacts x = Spec.recvG x := by
   exact recv_typed_agree _ x hxt
 
@@ -437,15 +486,15 @@ theorem index_typed_correct (a i : Opnd) (ha : a.rv = .none) (hi : i.rv = .none)
   rw [tcfacts_tie]; exact index_typed_agree a i ha hi hit hb
 
 /-- comparisons of typed non-constant operands of non-interface types: `typecheck.comparison` decides as the
-    specification does unless the two types collide in reflect or are channels of different directions
+    specification does unless the two types collide in reflect (F12-5); channels of different directions are covered
+    since 6110e8a / 61b9210 (F12-11: the hypothesis that excluded them is gone)
     (this is the check the mutant "comparison accepts mismatched operands" breaks) -/
 theorem comparison_typed_correct (op : CmpOp) (x y : Opnd)
     (hx : x.rv = .none) (hy : y.rv = .none) (hxt : x.ty.isUntyped = false) (hyt : y.ty.isUntyped = false)
     (hxi : x.ty.isIface = false) (hyi : y.ty.isIface = false)
-    (h2 : reflectCollision x.ty y.ty = false) (h2' : reflectCollision y.ty x.ty = false)
-    (hcd : (Spec.assignableTyG x.ty y.ty || Spec.assignableTyG y.ty x.ty) = true → x.ty = y.ty) :
+    (h2 : reflectCollision x.ty y.ty = false) (h2' : reflectCollision y.ty x.ty = false) :
     cmpY Generated.C12.tcFacts op x y = Spec.cmpG op x y := by
-  rw [tcfacts_tie]; exact cmp_typed_agree op x y hx hy hxt hyt hxi hyi h2 h2' hcd
+  rw [tcfacts_tie]; exact cmp_typed_agree op x y hx hy hxt hyt hxi hyi h2 h2'
 
 /-- arity of calls: with the comparison operator extracted from `arguments`, a call whose arguments are each
     individually assignable is accepted exactly when the counts match -/
@@ -473,9 +522,9 @@ theorem representable_int_bitlen_partial (v : Int) (b : Basic) (hb : b.kind.isIn
 theorem call_value_correct (rets : List STy) :
     callValueY Generated.C12.tcFacts false rets = Spec.callValueG false rets := by
   rw [tcfacts_tie]; exact callValue_agree rets
-/-- …except as the operand of a conversion `T(f())`, where cfg.go skips `callValue`: agreement exactly for one result (F12-21) -/
-theorem call_value_conversion_partial (rets : List STy) :
-    (callValueY Generated.C12.tcFacts true rets = Spec.callValueG true rets) ↔ rets.length = 1 := by
+/-- …and as the operand of a conversion `T(f())` too since 29b7aa6 (F12-21): a single-value context, for EVERY result list -/
+theorem call_value_conversion_correct (rets : List STy) :
+    callValueY Generated.C12.tcFacts true rets = Spec.callValueG true rets := by
   rw [tcfacts_tie]; exact callValue_conv_agree rets
 
 /-- F12-7: a send statement is decided as the specification says (direction, then assignability of the value to the
@@ -535,16 +584,15 @@ theorem negative_index_rejected (i i' : Opnd) (max : Option Nat)
 
 /-! #### array and slice literals (outside the expression fragment): the index discipline of `arrayLitExpr` -/
 
-/-- **array / slice literal indexes**: for every array type of length ≥ 1 and every slice type, and EVERY list of keyed
+/-- **array / slice literal indexes**: for every array type of ANY length (0 included since 5556d48) and every slice type, and EVERY list of keyed
     and positional elements, typecheck.go `arrayLitExpr` accepts exactly the index sequences the specification allows
     (an element without key uses the previous index plus one; keys are non-negative; every index of an array literal
     is below the length; no index occurs twice) -/
-theorem array_literal_index_correct (isArray : Bool) (length : Nat)
-    (hl : isArray = true → length ≥ 1) (hs : isArray = false → length = 0) (es : List LitElem) :
+theorem array_literal_index_correct (isArray : Bool) (length : Nat) (es : List LitElem) :
     arrayLitY Generated.C12.tcFacts isArray length es 0 0 [] =
       Spec.arrayLitG (if isArray then some length else none) es 0 [] := by
   rw [tcfacts_tie]
-  exact arrayLit_agree _ rfl rfl isArray length hl hs es 0 0 []
+  exact arrayLit_agree _ rfl rfl rfl rfl isArray length es 0 0 []
 
 /-- non-vacuity and the seeded change of seeded/C12-3: `[3]int{2: 30, 40}` (a key followed by a positional element
     running past the end) is rejected by both sides; with the bounds test reading the position in the literal
@@ -558,10 +606,11 @@ theorem array_literal_examples :
     (arrayLitY Generated.C12.tcFacts false 0 [.keyed 1, .keyed 0, .pos] 0 0 []).verdict = .err := by
   rw [tcfacts_tie]; decide
 
-/-- F12-18 (zero-length arrays): `[0]int{0: 1}` — the key is not checked against the length 0 -/
-theorem array_literal_zero_length_witness :
-    (arrayLitY Generated.C12.tcFacts true 0 [.keyed 0] 0 0 []).verdict = .ok ∧
-    (Spec.arrayLitG (some 0) [.keyed 0] 0 []).verdict = .err := by
+/-- F12-18 (zero-length arrays, 5556d48): `[0]int{0: 1}` — rejected by both sides; accepted under the facts of the tree before -/
+theorem array_literal_zero_length_fixed :
+    (arrayLitY Generated.C12.tcFacts true 0 [.keyed 0] 0 0 []).verdict = .err ∧
+    (Spec.arrayLitG (some 0) [.keyed 0] 0 []).verdict = .err ∧
+    (arrayLitY factsBeforeRound5 true 0 [.keyed 0] 0 0 []).verdict = .ok := by
   rw [tcfacts_tie]; decide
 
 end YaegiVerif.Props.C12
